@@ -553,6 +553,110 @@ def gauss_check(out, c, r):
                      impl=sum(got), model=tot)
 
 
+# ---- batched targets: 'mask' deletes the UNION of the batch elements' NaN indices, 'fill' works per element
+
+def gauss_batch_cases(rng, tier):
+    cases = []
+    for n, T in ((2, 1), (3, 1), (2, 2)) if tier == "quick" else ((2, 1), (3, 1), (4, 1), (2, 2), (3, 2)):
+        N = n * T
+        allp = [list(p) for p in itertools.product([0, 1], repeat=N) if not all(p)]
+        pairs = [[p, q] for p in allp for q in allp if not all(a or b for a, b in zip(p, q)) and (any(p) or any(q))]
+        cap = 24 if tier == "quick" else 120
+        if len(pairs) > cap:
+            pairs = rng.sample(pairs, cap)
+        for pq in pairs:
+            cases.append(dict(n=n, T=T, B=2, pattern=pq, hseed=rng.randint(0, 10 ** 9)))
+    return cases
+
+
+def gauss_batch_build(c):
+    rng = random.Random(c["hseed"])
+    n, T, B = c["n"], c["T"], c["B"]
+    N = n * T
+    ys, ms, Vs = [], [], []
+    for b in range(B):
+        y = torch.tensor([rng.randint(-16, 16) / 8.0 for _ in range(N)])
+        y[torch.tensor(c["pattern"][b], dtype=torch.bool)] = NAN
+        m = torch.tensor([rng.randint(-16, 16) / 8.0 for _ in range(N)])
+        L = torch.tensor([[rng.randint(-8, 8) / 8.0 if j <= i else 0.0 for j in range(N)] for i in range(N)])
+        ys.append(y); ms.append(m); Vs.append(L @ L.T + 0.25 * torch.eye(N))
+    y, m, V = torch.stack(ys), torch.stack(ms), torch.stack(Vs)
+    if T == 1:
+        lik = gpytorch.likelihoods.GaussianLikelihood(); lik.noise = rng.randint(1, 16) / 16.0
+        noise = [lik.noise.item()] * N
+        dist = gpytorch.distributions.MultivariateNormal(m, V)
+        tgt = y
+    else:
+        lik = gpytorch.likelihoods.MultitaskGaussianLikelihood(num_tasks=T, rank=0)
+        lik.noise = rng.randint(1, 8) / 16.0
+        lik.task_noises = torch.tensor([rng.randint(1, 8) / 16.0 for _ in range(T)])
+        noise = [lik.noise.item() + lik.task_noises[j].item() for _ in range(n) for j in range(T)]
+        dist = gpytorch.distributions.MultitaskMultivariateNormal(m.view(B, n, T), V)
+        tgt = y.view(B, n, T)
+    return lik, dist, tgt, y.tolist(), m.tolist(), [torch.diagonal(Vb).tolist() for Vb in V], noise
+
+
+def gauss_batch_impl(c):
+    lik, dist, tgt, *_ = gauss_batch_build(c)
+    res = {}
+    with torch.no_grad():
+        for pol in ("mask", "fill"):
+            with gs.observation_nan_policy(pol):
+                res["elp:" + pol] = lik.expected_log_prob(tgt, dist).reshape(c["B"], -1).tolist()
+                res["lmarg:" + pol] = lik.log_marginal(tgt, dist).reshape(c["B"], -1).tolist()
+    return res
+
+
+def gauss_batch_coq_cases(c):
+    """per batch element two model runs: targets with the UNION pattern (what 'mask' deletes) and with the
+    element's own pattern (what 'fill' deletes)"""
+    _, _, _, y, m, v, noise = gauss_batch_build(c)
+    N = c["n"] * c["T"]
+    union = [any(p[i] for p in c["pattern"]) for i in range(N)]
+    terms = []
+    for b in range(c["B"]):
+        for yy in ([NAN if u else a for a, u in zip(y[b], union)], y[b]):
+            ys = "[" + "; ".join("None" if a != a else "Some %s" % C.qc_lit(a) for a in yy) + "]"
+            terms.append("(%d%%nat, %s, %s, %s, %s, %s)" % (N, ys, C.qc_vec(m[b]), C.qc_vec(v[b]), C.qc_vec(noise), C.qc_lit(FILL)))
+    return terms
+
+
+def gauss_batch_check(out, c, rs):
+    n, T, B = c["n"], c["T"], c["B"]
+    N = n * T
+
+    def dec(r):
+        rd = C.Reader(r)
+        k = rd.int()
+        d = {"elp:mask": [float(rd.expr()) for _ in range(k)], "elp:fill": [float(rd.expr()) for _ in range(N)]}
+        d["lmarg:mask"] = [float(rd.expr()) for _ in range(k)]
+        d["lmarg:fill"] = [float(rd.expr()) for _ in range(N)]
+        assert rd.done()
+        return d
+    try:
+        impl = gauss_batch_impl(c)
+    except Exception as e:
+        out.fail("impl-exception:gauss-batch:%s" % type(e).__name__, "batched Gaussian likelihood term under a NaN policy raised %r" % e, c)
+        return
+    for b in range(B):
+        m_union, m_own = dec(rs[2 * b]), dec(rs[2 * b + 1])
+        for key, gotb in impl.items():
+            got = gotb[b]
+            if key.endswith("mask"):
+                want = m_union[key]
+            else:
+                want = m_own[key]
+                if T > 1:
+                    want = [sum(want[i * T:(i + 1) * T]) for i in range(n)]
+            cc = dict(c, b=b)
+            if has_nan(got):
+                out.fail("nan-in-output:%s:batch" % key, "NaN in %s (batched targets)" % key, cc, impl=got)
+            elif len(got) != len(want) or not vec_close(got, want, 1e-9):
+                out.fail("gauss-term:%s:%s:batch" % (key, "multitask" if T > 1 else "single"),
+                         "%s of batch element %d differs from the terms of the points that are observed (mask: in every batch "
+                         "element; fill: in this element)" % (key, b), cc, impl=got, model=want)
+
+
 # ------------------------------------------------------------------ main
 
 def effective(ds, pattern):
@@ -698,6 +802,13 @@ def run(out, ctx):
         out.case(dict(kind="gauss-terms", n=c["n"], T=c["T"], pattern=c["pattern"]), sum(c["pattern"]) > 0,
                  label="gauss-terms T=%d" % c["T"])
         gauss_check(out, c, r)
+    gb = gauss_batch_cases(rng, tier)
+    gbt = [t for c in gb for t in gauss_batch_coq_cases(c)]
+    gbres = C.coq_run_cases("C16gb" + TAGSFX, IMPORTS, RUN_DEF_G, gbt, shard=max(1, (len(gbt) + 15) // 16))
+    for i, c in enumerate(gb):
+        out.case(dict(kind="gauss-terms-batch", n=c["n"], T=c["T"], pattern=c["pattern"]), True,
+                 label="gauss-terms batch T=%d" % c["T"])
+        gauss_batch_check(out, c, gbres[4 * i:4 * i + 4])
     out.tested_not_proved = [
         "agreement of torch/linear_operator numerics (Cholesky, MaskedLinearOperator, Lanczos) with exact algebra",
         "batch reading of 'mask' (union of the batch elements' NaN patterns) is taken from the settings docstring",
@@ -708,7 +819,12 @@ def replay(path):
     d = json.load(open(path))
     case = d["case"]
     out = C.Outcome("C16", "quick", 0)
-    if "ds" not in case:      # gauss-terms case
+    if "ds" not in case and case.get("B"):      # batched gauss-terms case
+        case = {k: v for k, v in case.items() if k != "b"}
+        rs = C.coq_run_cases("C16_replay", IMPORTS, RUN_DEF_G, gauss_batch_coq_cases(case))
+        print("impl ", gauss_batch_impl(case))
+        gauss_batch_check(out, case, rs)
+    elif "ds" not in case:      # gauss-terms case
         r = C.coq_run_cases("C16_replay", IMPORTS, RUN_DEF_G, [gauss_coq_case(case)])[0]
         print("impl ", gauss_impl(case))
         gauss_check(out, case, r)
